@@ -1,7 +1,8 @@
 (* Run/R_C05.v -- correspondence runner for C05: initial-condition, normalisation and
    observation terms on polynomial networks u_c(in; a) = p_c(in) + a (a = equation parameter Nu 0) *)
 From Coq Require Import ZArith List Bool Arith QArith Qcanon.
-From JV Require Export Kit.Field Kit.Expr Kit.NumRun Model.M_lossterms.
+From JV Require Export Kit.Field Kit.Expr Kit.NumRun Kit.Tx Model.M_lossterms.
+From JV Require Import Inst.I_reduce.
 Import ListNotations.
 Definition slice := (nat * nat)%type.     (* [lo, hi) on the component axis *)
 Definition take (s : slice) {A} (l : list A) : list A := firstn (snd s - fst s) (skipn (fst s) l).
@@ -17,7 +18,11 @@ Definition cid (c : case) : nat := match c with IcOde i _ _ _ _ _ _ | IcPde i _ 
 (* network outputs at an input point, with equation parameter a *)
 Definition net_at (nv : nat) (upolys : list poly) (a : QcF) (pt : list QcF) : list QcF :=
   map (fun p => evq (mkenv pt [] [a]) (Add (polyIn nv p) (Var (Nu 0)))) upolys.
-Definition check (c : case) : bool :=
+Definition wten (w : weight QcF) : ten QcF := match w with WScalar x => T0 x | WVec l => T1 l end.
+(* a reduction expression regenerated from the source, evaluated on the term's input tensors *)
+Definition regen (e : tx) (env : list (ten QcF)) (obs : QcF) : bool :=
+  match tsem QcF env e with Some (T0 v) => qclose v obs | _ => false end.
+Definition check_model (c : case) : bool :=
   match c with
   | IcOde _ w up a t0 u0 obs => qclose (ode_ic_term QcF w [net_at 1 up a [t0]] u0) obs
   | IcPde _ w dim up ic a xs obs =>
@@ -30,5 +35,19 @@ Definition check (c : case) : bool :=
       let rows := combine inputs (if Nat.eqb (length arows) 0 then map (fun _ => a0) inputs else arows) in
       qclose (obs_term QcF w (map (fun r => take osl (take sol (net_at nv up (snd r) (fst r)))) rows) vals) obs
   end.
+Definition check_regenerated (c : case) : bool :=
+  match c with
+  | IcOde _ w up a t0 u0 obs => regen g_ode_ic_reduce [T2 [net_at 1 up a [t0]]; T1 u0; wten w] obs
+  | IcPde _ w dim up ic a xs obs =>
+      regen g_ic_reduce_pinn [T2 (map (fun x => map (fun p => evq (mkenv x [] []) (polyIn dim p)) ic) xs);
+                              T2 (map (fun x => net_at (S dim) up a (qz 0 :: x)) xs); wten w] obs
+  | NormStatio _ w L dim up a samples obs => regen g_norm_reduce_statio [T2 (map (net_at dim up a) samples); T0 L; T0 w] obs
+  | NormNonStatio _ w L dim up a times samples obs =>
+      regen g_norm_reduce_nonstatio [T3 (map (fun t => map (fun s => net_at (S dim) up a (t :: s)) samples) times); T0 L; T0 w] obs
+  | Obs _ w nv up sol osl a0 arows inputs vals obs =>
+      let rows := combine inputs (if Nat.eqb (length arows) 0 then map (fun _ => a0) inputs else arows) in
+      regen g_obs_reduce [T2 (map (fun r => take osl (take sol (net_at nv up (snd r) (fst r)))) rows); T2 vals; wten w] obs
+  end.
+Definition check (c : case) : bool := check_model c && check_regenerated c.
 Definition summary (cases : list case) :=
   let bad := filter (fun c => negb (check c)) cases in (length cases, length bad, firstn 5 (map cid bad)).
